@@ -53,6 +53,7 @@ func Catalogue(prop, tier string) []Cfg {
 			pc("v2", []uint{2, 1}, 2, "rate", []int{0, 1}, []int{1, 1}, "pool", ""),
 			pc("v1", []uint{2, 1}, 2, "fair", []int{1}, []int{1}, "pool", ""),
 			pc("s2", []uint{2, 1}, 2, "fair", []int{1}, []int{1}, "", ""),
+			pc("s1", []uint{2, 1}, 2, "fair", []int{1}, []int{1}, "", ""),
 		} {
 			x.Cross = 40
 			add(x)
@@ -105,6 +106,14 @@ func Catalogue(prop, tier string) []Cfg {
 	case "C01", "C02", "C07":
 		prioCore()
 		scripts()
+		if prop == "C01" {
+			// endless inputs: capacity over runs of unbounded length (closed state graph)
+			add(pc("v2", []uint{2, 1}, 2, "fair", []int{1}, []int{0}, "rr", "endless"))
+			add(pc("v2", []uint{2, 1}, 3, "rate", []int{2}, []int{0}, "pool", "endless"))
+			add(pc("v2", []uint{3, 2, 1}, 3, "low", []int{1}, []int{0}, "rr", "endless"))
+			add(pc("v1", []uint{2, 1}, 2, "rate", []int{1}, []int{0}, "rr", "endless"))
+			add(pc("s2", []uint{2, 1}, 2, "fair", []int{1}, []int{0}, "", "endless"))
+		}
 	case "C19":
 		// every way of terminating, every discipline
 		prioCore()
@@ -133,7 +142,29 @@ func Catalogue(prop, tier string) []Cfg {
 		}
 		add(Cfg{Harness: "limit", Q: 2, I: 3, Cap: []int{1}, N: []int{5}, Pauses: []int64{0, 1}, Delays: []int64{0, 1}, Bound: -1})
 		add(Cfg{Harness: "limit", Q: 2, I: 3, Cap: []int{5}, N: []int{4}, Mode: "prefill", Bound: -1})
+	case "C05x":
 	case "C05":
+		// endless inputs: data waiting for ever, runs of unbounded length (the state graph closes)
+		for _, e := range []struct {
+			d   string
+			p   []uint
+			h   uint
+			div string
+			env string
+		}{
+			{"v2", []uint{2, 1}, 2, "fair", "rr"}, {"v2", []uint{2, 1}, 3, "rate", "rr"}, {"v2", []uint{2, 1}, 3, "low", "rr"},
+			{"v2", []uint{3, 2, 1}, 3, "fair", "rr"}, {"v2", []uint{3, 2, 1}, 4, "rate", "rr"}, {"v2", []uint{2, 1}, 2, "fair", "pool"},
+			{"v1", []uint{2, 1}, 2, "fair", "rr"}, {"v1", []uint{2, 1}, 3, "rate", "rr"}, {"v1", []uint{3, 2, 1}, 3, "fair", "rr"},
+		} {
+			add(pc(e.d, e.p, e.h, e.div, []int{1}, []int{0}, e.env, "endless"))
+		}
+		if !quick {
+			add(pc("v2", []uint{3, 2, 1}, 6, "rate", []int{2}, []int{0}, "rr", "endless"))
+			add(pc("v2", []uint{5, 3, 1}, 5, "rate", []int{1}, []int{0}, "rr", "endless"))
+			add(pc("v2", []uint{3, 2, 1}, 5, "fair", []int{1}, []int{0}, "rr", "endless"))
+			add(pc("v1", []uint{3, 2, 1}, 6, "rate", []int{1}, []int{0}, "rr", "endless"))
+			add(pc("v2", []uint{3, 2, 1}, 3, "fair", []int{1}, []int{0}, "pool", "endless"))
+		}
 		sat := func(disc string, p []uint, h uint, div string, r int, env string) {
 			for !accepted(p, h, div) {
 				h++ // smallest quantity the constructor accepts
